@@ -55,9 +55,27 @@ class _W:
         self.t0 = None
 
 
-def run_tasks(fn_spec, tasks, nproc=None, timeout=300, quiet=True, progress=None):
+def run_tasks(fn_spec, tasks, nproc=None, timeout=300, quiet=True, progress=None, retry_timeouts=True):
     """
     Run ``fn(task)`` for every task in worker processes.
+
+    A task that exceeds its time budget is run once more after all others have finished, with few tasks side by side and
+    three times the budget: on a loaded machine a slow run is not a hang, and only a repeated timeout is reported as one.
+    """
+    tasks = list(tasks)
+    out = _run_tasks(fn_spec, tasks, nproc, timeout, quiet, progress)
+    if retry_timeouts and timeout:
+        again = [i for i, o in enumerate(out) if o and o.get("status") == "timeout"]
+        if again:
+            res = _run_tasks(fn_spec, [tasks[i] for i in again], min(3, len(again)), timeout * 3, quiet, None)
+            for i, r in zip(again, res):
+                out[i] = r if r.get("status") != "timeout" else dict(r, repeated=True)
+    return out
+
+
+def _run_tasks(fn_spec, tasks, nproc=None, timeout=300, quiet=True, progress=None):
+    """
+    One pass over the tasks.
 
     Returns a list (same order as tasks) of dicts
     ``{"status": "ok", "result": ...}``, ``{"status": "exc", "error": tb}``,
